@@ -1009,6 +1009,7 @@ def c14_r8(ctx):
     rn = p.calls_to("rule::Rule::new")
     ctx.need(len(rn) == 1, "Rule::new call")
     rn = rn[0]
+    calls_of = {}
     for i, nm in enumerate(("targets", "sources")):
         ctx.inst("%s handed to Rule::new" % nm, rn.where)
         org = p.origins_of_operand(rn.args[i])
@@ -1022,10 +1023,59 @@ def c14_r8(ctx):
                     ok = True
             if not ok:
                 bad.append(fmt_origin(o))
+        if not bad and org:
+            calls_of[nm] = [p.call_at[o2[0][2]] for o in org for o2 in p.origins_of_operand(p.call_at[o[0][2]].args[0])]
         if not org or bad:
             ctx.viol((p.id, "section-bypasses-bundle-parser", nm), "the %s of a rule can be something other than the paths the bundle parser yields for that section (%s): lines that the bundle layer rejects (indentation without a parent, empty lines) would be accepted as paths" % (nm, ", ".join(sorted(bad))[:160]), rn.where)
         else:
             ctx.ok()
+
+
+    # the targets section comes first in the file, and its error first in the report: the
+    # sources' result is examined only once the targets' result was found Ok
+    if calls_of.get("targets") and calls_of.get("sources"):
+        t_ok = set()
+        for tc in calls_of["targets"]:
+            t_ok |= p.edges_of_call_variant(tc, "Ok")
+        for sc in calls_of["sources"]:
+            for (src, dst) in p.edges_of_call_variant(sc, "Err") | p.edges_of_call_variant(sc, "Ok"):
+                if not p.dominated_by_edges(src, t_ok):
+                    ctx.viol((p.id, "sources-judged-before-targets"), "the result of the sources section is examined before the targets section was found well-formed: when both are malformed the error of the later section is reported (its line numbers are relative to a section the user cannot tell)", sc.where)
+                    break
+
+
+@rule("C14.R9", floor=0, positional=False)
+def c14_r9(ctx):
+    """A shared prefix buffer is restored to a saved length: where the bundle code shortens a
+    String it has pushed onto (`truncate`, `pop`, `drain`, `clear` ..), the only accepted form is
+    `truncate(n)` with n the buffer's own `len()` taken before - cutting back to a position
+    found by searching (the last separator) or popping characters leaves a wrong prefix behind
+    when a name contains the separator, and every later path of the level is mis-spelt.
+    (Expected to find nothing on the pinned tree, which builds a fresh prefix per directory.)"""
+    P = ctx.P
+    for f in prod(P):
+        if not f.body["span"]["file"].endswith("bundle.rs"):
+            continue
+        for c in f.calls:
+            if not c.path.startswith("std::string::String::") or c.name not in ("truncate", "pop", "drain", "clear", "remove", "replace_range", "retain", "split_off"):
+                continue
+            buf = f.vars_of_operand(c.args[0]) if c.args else set()
+            pushed = [x for x in f.calls if x.path in ("std::string::String::push_str", "std::string::String::push") and x.args and f.vars_of_operand(x.args[0]) == buf]
+            if not pushed:
+                continue
+            ctx.saw(f)
+            ctx.inst("prefix shortened in %s" % f.id, c.where)
+            ok = False
+            if c.name == "truncate" and len(c.args) > 1:
+                no = f.origins_of_operand(c.args[1])
+                if no and all(o[0][0] == "call" and o[0][3].endswith("::len") and len(o) == 1 and f.vars_of_operand(f.call_at[o[0][2]].args[0]) == buf
+                              and f.dominated_by_blocks(c.bb, [o[0][2]]) for o in no):
+                    ok = True
+            if ok:
+                ctx.ok()
+            else:
+                ctx.viol((f.id, "prefix-not-restored-by-length", c.name), "the shared path prefix is shortened with `%s` to something other than a length saved before the pushes: after a directory whose name contains the separator a wrong prefix stays in the buffer, and the following paths of the rule are not the declared ones" % c.name, c.where)
+    ctx.ok()
 
 
 @rule("C14.R6", floor=1)
